@@ -571,8 +571,28 @@ def mutated_expr_module(rng):
     return ("mut:gen_expr", mutate(rng, _expr_module_text(rng)))
 
 
+_WIDTH = re.compile(r"(\[\s*\+\s*|[A-Za-z]\s*:\s*)(\d[\d_]*)(?=\s*[\]\[\s(),]|$)", re.M)
+
+
+def tame(text):
+    """Field sizes / explicit type widths above 2**16 are cut down: the front end computes 2**width for them,
+    which takes minutes and gigabytes from about 2**30 on (reported once as a finding, not re-run every time)."""
+    def sub(m):
+        try:
+            v = int(m.group(2).replace("_", ""))
+        except ValueError:
+            return m.group(0)
+        return m.group(0) if v <= 65536 else m.group(1) + "65"
+    return _WIDTH.sub(sub, text)
+
+
 def generate(rng, repo, weights=None):
-    """One (label, text) from the mixture."""
+    """One (label, text) from the mixture (see `tame`)."""
+    label, text = _generate(rng, repo)
+    return label, tame(text)
+
+
+def _generate(rng, repo):
     k = rng.random()
     if k < 0.08:
         return random_bytes(rng)
